@@ -7,6 +7,19 @@ From V Require Import Result Cfg CfgProofs.
 Import ListNotations.
 Open Scope Z_scope.
 
+(* CFG(iterable), IR(cfg=iterable) and the CFG the loader builds from the edges of a file: a set holding exactly the listed
+   edges, each once, whatever the iterable repeats; it is a reachable state, so everything below holds for it *)
+Theorem C11_built_from_iterable : forall es,
+  CfgInv (update [] es) /\ NoDup (edges (update [] es)) /\
+  (forall x, In x (edges (update [] es)) <-> In x es) /\
+  update [] es = crun [CUpdate es].
+Proof.
+  intros es.
+  pose proof (update_inv [] es CfgInv_nil) as Hinv.
+  split; [exact Hinv|]. split; [exact (proj1 Hinv)|]. split; [|reflexivity].
+  intros x. pose proof (update_spec [] es x) as H. cbn [edges map In] in H. tauto.
+Qed.
+
 (* every state reachable by any sequence of add, discard, remove, pop, clear, update, |=, &=, -=, ^= is a set
    (no triple twice; one multigraph edge per element) *)
 Theorem C11_reachable_is_set : forall ops, CfgInv (crun ops).
@@ -69,6 +82,7 @@ Proof. exact eq_set_spec. Qed.
 Theorem C11_isdisjoint : forall g other, isdisjoint g other = true <-> (forall x, In x other -> ~ In x (edges g)).
 Proof. exact isdisjoint_spec. Qed.
 
+Print Assumptions C11_built_from_iterable.
 Print Assumptions C11_reachable_is_set.
 Print Assumptions C11_step_refines_set.
 Print Assumptions C11_step_fails_like_set.
